@@ -65,6 +65,12 @@ open_("C13", "D28", "C13/lost@f.txt:2", ["C13/lost@f.txt:3"],
 open_("C19", "D32", "C19/accepted", ["C19/ai_additions>added", "C19/human+accepted!=added"],
       "input: commit adds 1 AI line (f.txt:4, session S1); the note is rewritten so that a second session entry also lists line 4 (as merged or foreign notes can); `git-ai stats <sha> --json` => ai_accepted=2 and ai_additions=2 for git_diff_added_lines=1 (accepted_lines_from_attestations sums per entry without de-duplicating lines)",
       "c19.line_listed_by_two_sessions_counts_twice", ["overlap_injection"], affects=[])
+open_("C09", "D59", "C09/json-failed@-L 3,+2", ["C09/ai-verdict@-L 3", "C09/json-failed@-L ,4", "C09/json-failed@-L 3,", "C09/json-failed@-L 5,-2"],
+      "input: `git-ai blame -L <range> f.txt` with git's range forms other than `a,b`: `-L 3,+2` (two lines from line 3) is read as 3..2 and refused (`Invalid line range: 3:2`), `-L 5,-2`, `-L 3,` and `-L ,4` are refused, `-L 3` (from line 3 to the end of the file) blames line 3 only; git blame accepts all of them. Several `-L a,b` options (disjoint, overlapping, nested, any order) do agree with git",
+      "c09.relative_and_open_ended_line_ranges", ["blame_L_relative_forms"], affects=[])
+open_("C09", "D60", "C09/json-failed", [],
+      "input: `git-ai blame -w f.txt` (ignore whitespace when comparing, one of the options the property names) => exit 1 `Unknown option: -w`; git blame -w exits 0",
+      "c09.ignore_whitespace_option", ["blame_w"], affects=[])
 open_("C09", "D14", "C09/empty-file-fails", [],
       "input: `git-ai blame empty.txt` (any output format) for an empty tracked file => exit 1 'Invalid line range: 1:0. File has 0 lines'; `git blame` exits 0 with no output (the pinned suite asserts the error, test_blame_edge_empty_file, so the repair is not an unedited-suite-compatible fix)",
       "c09.blame_of_empty_tracked_file", ["blame_empty_file"], affects=[])
